@@ -17,18 +17,27 @@
    NOT modelled: smoothing, non-maxima suppression, thresholding, component labelling and percentiles on arbitrary
    real-valued maps; sloped ridges; clustering into regions (continuous image processing / geometry).
 
+   Several engines in one process (round 9):  PageParser builds one LayoutEngine per LAYOUT_PARSER section, so engines with
+   DIFFERENT constructor parameters live side by side and parse pages alternately.  A configuration carries `hist`
+   (constant Hists): which other engine (OtherEngines[hist]) was constructed and parsed a page just before the DEFAULT
+   engine decodes the configuration's maps.  Parse works with the decoding engine's OWN parameters (Eff), so the
+   properties hold for every hist; under the seeded defect "shared" it works with the parameters the other engine left
+   behind in class-level / module-level state and ridges 16 rows apart merge (range 35) or vanish (threshold 0.9).
+
    `Variant` selects seeded defects for the sharpness self-tests:  "shape1" (rot 1 subtracts from shape[1] instead of
-   shape[0]), "flip3" (rot 3 without the axis flip), "nods" (heights not multiplied by Ds).                       *)
+   shape[0]), "flip3" (rot 3 without the axis flip), "nods" (heights not multiplied by Ds), "shared" (above).        *)
 EXTENDS Integers, Sequences, FiniteSets, TLC
 
 CONSTANTS Mode,        \* "pixels" | "ridges"
-          Variant,     \* "ok" | "shape1" | "flip3" | "nods"
+          Variant,     \* "ok" | "shape1" | "flip3" | "nods" | "shared"
           MaxH, MaxW,  \* pixels mode: page sizes 1..MaxH x 1..MaxW
           MapH, MapW,  \* ridges mode: size of the network's maps (of the rotated image)
           Dss,         \* down-sampling factors
           Rows,        \* ridge slots: set of map rows (at least 15 apart)
           X0s, Lens,   \* first map column and length of a ridge; length 0 stands for the shortest admissible ridge
-          Dys          \* rises of a ridge from its first to its last column (0 = flat); all ridges of a configuration are parallel
+          Dys,         \* rises of a ridge from its first to its last column (0 = flat); all ridges of a configuration are parallel
+          Hists        \* what ANOTHER LayoutEngine of the same process did before the decode: 0 = there is no other engine,
+                       \* h > 0 = an engine with the constructor parameters OtherEngines[h] was built and parsed a page
 
 Abs(a) == IF a < 0 THEN -a ELSE a
 Max2(a, b) == IF a > b THEN a ELSE b
@@ -90,12 +99,12 @@ Build(rows, ch, ep) ==                        \* ridges in increasing row order
             ELSE <<[y |-> y, x0 |-> ch[y][1], x1 |-> ch[y][1] + RidgeLen(ch[y], ep) - 1,
                     a2 |-> Asc2(y), d2 |-> Desc2(y), dy |-> 0]>> \o rest
 RidgeInit == /\ Mode = "ridges"
-             /\ \E k \in 0..3, ds \in Dss, ep \in BOOLEAN, rm \in BOOLEAN, dy \in Dys, ch \in [Rows -> Options] :
+             /\ \E k \in 0..3, ds \in Dss, ep \in BOOLEAN, rm \in BOOLEAN, dy \in Dys, hist \in Hists, ch \in [Rows -> Options] :
                    /\ \E y \in Rows : ch[y] # <<0, 0>>
                    /\ \A y \in Rows : ch[y] # <<0, 0>> => ch[y][1] + RidgeLen(ch[y], ep) - 1 <= MapW - 1
                    \* a sloped ridge stays inside the maps and is long enough to be "gently" sloped
                    /\ (dy # 0) => \A y \in Rows : ch[y] # <<0, 0>> => (y + dy <= MapH - 4 /\ RidgeLen(ch[y], ep) >= 2 * dy)
-                   /\ cfg = [k |-> k, ds |-> ds, ep |-> ep, rm |-> rm,
+                   /\ cfg = [k |-> k, ds |-> ds, ep |-> ep, rm |-> rm, hist |-> hist,
                              ridges |-> [i \in 1..Len(Build(Rows, ch, ep)) |-> [Build(Rows, ch, ep)[i] EXCEPT !.dy = dy]]]
              /\ pc = "maps" /\ lines = <<>>
 
@@ -110,10 +119,30 @@ RotW == MapWOf * cfg.ds + (IF cfg.rm THEN cfg.ds \div 2 ELSE 0)
 OrigH == IF cfg.k \in {1, 3} THEN RotW ELSE RotH
 OrigW == IF cfg.k \in {1, 3} THEN RotH ELSE RotW
 
+\* ---- the engine objects of one process
+\* constructor parameters of LayoutEngine that parse() reads (thresholds in 1/1000): the engine of the statement (defaults of
+\* __init__ = what PageParser passes for a section without these keys) and the other engines a configuration may build next to it
+DefaultEngine == [range |-> 5, smooth |-> TRUE, lew |-> 1000, thr |-> 200]
+OtherEngines == <<[range |-> 35, smooth |-> FALSE, lew |-> 0, thr |-> 200],       \* broken rules: wide connection range, raw maps
+                  [range |-> 5, smooth |-> TRUE, lew |-> 1000, thr |-> 900],      \* a strict detection threshold
+                  [range |-> 21, smooth |-> TRUE, lew |-> 2500, thr |-> 100]>>
+HistOf == IF "hist" \in DOMAIN cfg THEN cfg.hist ELSE 0
+\* the parameters parse() of the decoding (default) engine works with: its own, whatever another engine did before
+Eff == IF Variant = "shared" /\ HistOf # 0 THEN OtherEngines[HistOf] ELSE DefaultEngine
+\* a rendered ridge (Gaussian profile, peak 1) after the 3 x 3 smoothing: (1 + 2 exp(-1/2)) / 3
+Peak(e) == IF e.smooth THEN 738 ELSE 1000
+\* binary dilation by `range` rows + labelling: ridge pixels at most `range` rows apart end up in one component = one line
+\* (reported here by its topmost ridge); no recursion - the sampled pages of kind "scale" have thousands of ridges
+Components(rs, e) ==
+    LET heads == {i \in 1..Len(rs) : i = 1 \/ rs[i].y - rs[i - 1].y > e.range}
+    IN IF Cardinality(heads) = Len(rs) THEN rs
+       ELSE [j \in 1..Cardinality(heads) |-> rs[CHOOSE i \in heads : Cardinality({m \in heads : m < i}) = j - 1]]
+Decoded == IF Peak(Eff) > Eff.thr THEN Components(cfg.ridges, Eff) ELSE <<>>
+
 \* LayoutEngine.parse: one line per ridge, map coordinates times the down-sampling factor
 Parse == /\ pc = "maps"
-         /\ lines' = [i \in 1..Len(cfg.ridges) |->
-                         LET r == cfg.ridges[i]
+         /\ lines' = [i \in 1..Len(Decoded) |->
+                         LET r == Decoded[i]
                              hs == IF Variant = "nods" THEN 1 ELSE cfg.ds
                          IN [p0 |-> <<cfg.ds * r.x0, cfg.ds * r.y>>, p1 |-> <<cfg.ds * r.x1, cfg.ds * (r.y + r.dy)>>,
                              ha2 |-> hs * r.a2, hd2 |-> hs * r.d2]]
